@@ -666,7 +666,7 @@ func init() {
 func init() {
 	addRule("C12", "C12.fieldorder — a group's values reach the row in the group's own field order: a ResultField value is appended, or stored at the very index it was read from, never at a position derived from its column name (repeated group-by columns share a name).",
 		func(c *Ctx) { fieldOrderRule(c, "C12.fieldorder") })
-	addRule("C17", "C17.pairing — every map of the driver that the open function adds an entry to is cleared of that entry on the path on which the connection's Close closes the index (state that outlives the last handle changes what later opens do).",
+	addRule("C17", "C17.pairing — every map of the driver that the open function adds an entry to is cleared of that entry on the path on which the connection's Close closes the index (state that outlives the last handle changes what later opens do); a map that is provably a memo of a pure function of its key with plain-data values (parsed option strings) is not such state.",
 		func(c *Ctx) { driverMapPairingRule(c, "C17.pairing") })
 }
 
@@ -723,7 +723,8 @@ func fieldOrderRule(c *Ctx, rule string) {
 
 // driverMapPairingRule: map-typed fields of the driver type other than the connection cache itself (C17.evict covers
 // that one) that the open function's scope updates must be deleted from on every path to the Index.Close call in the
-// connection's Close scope.
+// connection's Close scope. Exempt: a map that is a memo of a pure function of its key, kept by one accessor whose hit and
+// miss branches return the same plain-data value (c17MemoMap, rules_ag30.go) — such an entry is not state of a connection.
 func driverMapPairingRule(c *Ctx, rule string) {
 	if c.a.DriverT == nil || c.a.DrvOpenFile == nil || c.a.FileConnClose == nil || c.a.IndexClose == nil {
 		return
@@ -774,7 +775,18 @@ func driverMapPairingRule(c *Ctx, rule string) {
 			return isB && b.Name() == "delete" && len(call.Call.Args) > 0 && path(call.Call.Args[0]).lastField() == f
 		}
 		if p := c.fc.pathAvoiding(closer, nil, func(x ssa.Instruction) bool { return x == closeCall }, c.fc.ipAvoid(isDel)); p != nil {
-			c.r.bad(rule, key, "the open function records something in this map of the driver, but the connection's Close closes the index without removing it: the entry outlives the last handle and changes what later opens of the file do (e.g. they are refused, or answered from stale state)", []string{c.w.ipos(at)}, c.fc.witnessStrings(p)...)
+			// a memo of a pure function of the key (parsed option strings, say) is not state of a connection: an entry that
+			// outlives the last handle gives later opens exactly what they would compute themselves (c17MemoMap, rules_ag30.go)
+			isMemo, why := c17PairingMemo(c, f)
+			if isMemo {
+				c.r.ok(rule, key, why, c.w.ipos(at))
+				continue
+			}
+			wit := c.fc.witnessStrings(p)
+			if why != "" {
+				wit = append(wit, "(not a memo of a pure function of its key: "+why+")")
+			}
+			c.r.bad(rule, key, "the open function records something in this map of the driver, but the connection's Close closes the index without removing it: the entry outlives the last handle and changes what later opens of the file do (e.g. they are refused, or answered from stale state)", []string{c.w.ipos(at)}, wit...)
 		} else {
 			c.r.ok(rule, key, "the entry is removed before the index is closed", c.w.ipos(at))
 		}
